@@ -103,8 +103,15 @@ def build_entry(I, con: Contract, node, case_types):
         v = ty.fresh(I, p)
         bindings[p] = v
         kwargs[p] = v
-    if node.args.vararg is not None and node.args.vararg.arg in con.args:
-        raise Unsupported("symbolic *args")
+    va = node.args.vararg.arg if node.args.vararg is not None else None
+    if va is not None:
+        ty = (case_types or {}).get(va) or con.args.get(va)
+        if ty is not None:
+            v = ty.fresh(I, va)
+            if not isinstance(v, tuple):
+                raise Unsupported("*args must be given a tuple type")
+            bindings[va] = v
+            kwargs["__varargs__"] = v
     return bindings, kwargs, self_obj
 
 
@@ -138,20 +145,30 @@ def run_path(con: Contract, case, prefix, worklist, report: FunctionReport, plan
         I.entry_old_view = old_view
         from . import asyncrule, looprule
 
+        I.self_spec, I.self_obj = con.self_spec, self_obj
         asyncrule.install(I, con, self_obj, bindings)
         looprule.install(I, con, node, bindings)
         if con.modifies_ is not None and self_obj is not None:
             pass  # frame is checked at exit against the snapshot
         result, raised, exit_kind = None, None, "return"
         try:
-            args = []
+            kw = dict(kwargs)
+            # positional parameters are passed by keyword; *args (if typed) follows them positionally
+            extra = list(kw.pop("__varargs__", ()))
+            pos = []
+            if extra:
+                a_ = node.args
+                names_ = [p.arg for p in a_.posonlyargs + a_.args][(1 if self_obj is not None else 0):]
+                pos = [kw.pop(n_) for n_ in names_ if n_ in kw] + extra
             if self_obj is not None:
-                result = I.call_ast_function(node, modname, None, [], dict(kwargs), bound_self=self_obj)
+                result = I.call_ast_function(node, modname, None, pos, kw, bound_self=self_obj)
             else:
-                result = I.call_ast_function(node, modname, None, [], dict(kwargs))
+                result = I.call_ast_function(node, modname, None, pos, kw)
         except PyRaise as pr:
             raised = pr.exc
             exit_kind = "raise"
+        if isinstance(node, ast.AsyncFunctionDef):
+            asyncrule.drain_callbacks(I)
         ek = exit_kind if raised is None else f"raise:{exc_class(raised).__name__}"
         report.exits[ek] = report.exits.get(ek, 0) + 1
         check_exit(I, con, bindings, old_view, result, raised, exit_kind, self_obj, plant_canary)
